@@ -125,6 +125,23 @@ def pyEqIn (k : Key) (v : Tr ι) : List (Key × Tr κ) → Bool
 end
 
 mutual
+/-- same content: same structure, same key order, identical scalars (identities ignored) -/
+def same : Tr ι → Tr κ → Bool
+  | .leaf a, .leaf b => a == b
+  | .list _ xs, .list _ ys => sameL xs ys
+  | .dict _ kvs, .dict _ kws => sameKV kvs kws
+  | _, _ => false
+def sameL : List (Tr ι) → List (Tr κ) → Bool
+  | [], [] => true
+  | x :: xs, y :: ys => same x y && sameL xs ys
+  | _, _ => false
+def sameKV : List (Key × Tr ι) → List (Key × Tr κ) → Bool
+  | [], [] => true
+  | (k, v) :: kvs, (k', w) :: kws => k == k' && same v w && sameKV kvs kws
+  | _, _ => false
+end
+
+mutual
 /-- C11/C12 specification predicate: string keys everywhere, JSON leaves only,
 and (when `nodot`) no key containing a dot. -/
 def clean (nodot : Bool) : Tr ι → Bool
